@@ -43,25 +43,35 @@ Horner(A, xv, d) == IF d > Len(A) THEN NZero
 (* LINEAR domain (logits / log-space constants are represented by the value    *)
 (* they stand for); prev: values of the earlier layers; x: integer assignment; *)
 (* xn: numeric assignment (a jet per variable).                                *)
-LayerVal(l, W, prev, x, xn) ==
+(* P(u, j): entry (u, j) of the layer's matrix as a number; the designated entry th (if it  *)
+(* belongs to this layer, n = th[1]) is the jet variable, so that component 2 of every     *)
+(* result is the exact partial derivative with respect to that parameter entry (J >= 2).   *)
+LayerVal(n, th, l, W, prev, x, xn) ==
+  LET P(u, j) == IF th = <<n, u, j>>
+                 THEN [i \in 1..J |-> IF i = 1 THEN W[u][j] ELSE IF i = 2 THEN COne ELSE CZero]
+                 ELSE NConst(W[u][j])
+      RECURSIVE HornerP(_, _, _)
+      HornerP(u, xv, d) == IF d > Len(W[u]) THEN NZero
+                           ELSE NAdd(P(u, d), NMul(xv, HornerP(u, xv, d + 1)))
+  IN
   CASE l.kind \in {"emb", "catp", "catl", "binom"} ->
-         [u \in 1..l.K |-> NConst(W[u][x[l.var] + 1])]
+         [u \in 1..l.K |-> P(u, x[l.var] + 1)]
     [] l.kind = "poly" ->
-         [u \in 1..l.K |-> Horner(W[u], xn[l.var], 1)]
+         [u \in 1..l.K |-> HornerP(u, xn[l.var], 1)]
     [] l.kind \in {"const", "clog"} ->
-         [u \in 1..l.K |-> NConst(W[u][1])]
+         [u \in 1..l.K |-> P(u, 1)]
     [] l.kind = "sum" ->
          LET H == Len(l.ins)
              kin == Len(prev[l.ins[1]])
          IN [u \in 1..l.K |->
                SumTo([j \in 1..(H * kin) |->
-                        NMul(NConst(W[u][j]),
+                        NMul(P(u, j),
                              prev[l.ins[((j - 1) \div kin) + 1]][((j - 1) % kin) + 1])],
                      H * kin)]
     [] l.kind = "mix" ->
          LET H == Len(l.ins)
          IN [u \in 1..l.K |->
-               SumTo([h \in 1..H |-> NMul(NConst(W[u][h]), prev[l.ins[h]][u])], H)]
+               SumTo([h \in 1..H |-> NMul(P(u, h), prev[l.ins[h]][u])], H)]
     [] l.kind = "had" ->
          LET H == Len(l.ins)
          IN [u \in 1..l.K |-> ProdTo([h \in 1..H |-> prev[l.ins[h]][u]], H)]
@@ -72,14 +82,14 @@ LayerVal(l, W, prev, x, xn) ==
                ProdTo([h \in 1..H |->
                          prev[l.ins[h]][(((u - 1) \div IPow(kin, H - h)) % kin) + 1]], H)]
 
-RECURSIVE ValsUpTo(_, _, _, _, _)
-ValsUpTo(c, st, x, xn, n) ==
+RECURSIVE ValsUpTo(_, _, _, _, _, _)
+ValsUpTo(c, st, th, x, xn, n) ==
   IF n = 0 THEN <<>>
-  ELSE LET prev == ValsUpTo(c, st, x, xn, n - 1)
-       IN Append(prev, LayerVal(c.layers[n], st[n], prev, x, xn))
+  ELSE LET prev == ValsUpTo(c, st, th, x, xn, n - 1)
+       IN Append(prev, LayerVal(n, th, c.layers[n], st[n], prev, x, xn))
 
-DenBase(c, st, x, xn) ==
-  LET vals == ValsUpTo(c, st, x, xn, Len(c.layers))
+DenBase(c, st, th, x, xn) ==
+  LET vals == ValsUpTo(c, st, th, x, xn, Len(c.layers))
   IN [o \in 1..Len(c.outs) |-> vals[c.outs[o]]]
 
 (* ---------- scopes ---------- *)
@@ -92,7 +102,7 @@ LScope(layers, i) ==
 
 (* ---------- operator terms ---------- *)
 (* pool: sequence of terms; a term refers to earlier pool entries by index.    *)
-(*  [op |-> "base", c, st]                                                     *)
+(*  [op |-> "base", c, st, th]     th: designated parameter entry or <<0,0,0>> *)
 (*  [op |-> "integrate", a, Z]        Z: set of variables                      *)
 (*  [op |-> "multiply", a, b]                                                  *)
 (*  [op |-> "evidence", a, obs]       obs: function  variable -> value         *)
@@ -135,7 +145,7 @@ RECURSIVE IntVals(_, _, _, _, _, _, _)
 (* dom: sequence of domain sizes (per variable) *)
 DenTerm(pool, dom, i, x, xn) ==
   LET t == pool[i] IN
-  CASE t.op = "base" -> DenBase(t.c, t.st, x, xn)
+  CASE t.op = "base" -> DenBase(t.c, t.st, t.th, x, xn)
     [] t.op = "integrate" -> IntOver(pool, dom, t.a, SetToSeq(t.Z), x, xn)
     [] t.op = "multiply" ->
          LET ta == DenTerm(pool, dom, t.a, x, xn)
@@ -176,9 +186,16 @@ DenTerm(pool, dom, i, x, xn) ==
                           \o <<f0[n]>>
          IN F(Len(s))
 
+(* Summation over a variable is applied to every output whose own scope contains it; an  *)
+(* output that does not have the variable as an argument is left as it is (multi-output  *)
+(* circuits whose outputs have different scopes).                                        *)
 IntOver(pool, dom, a, zs, x, xn) ==
   IF zs = <<>> THEN DenTerm(pool, dom, a, x, xn)
-  ELSE IntVals(pool, dom, a, zs, x, xn, dom[Head(zs)])
+  ELSE LET v  == Head(zs)
+           S  == IntVals(pool, dom, a, zs, x, xn, dom[v])
+           A  == IntVals(pool, dom, a, zs, x, xn, 1)
+           sc == OutScopes(pool, a)
+       IN [o \in 1..Len(S) |-> IF v \in sc[o] THEN S[o] ELSE A[o]]
 
 IntVals(pool, dom, a, zs, x, xn, n) == \* sum over values 0..n-1 of Head(zs)
   LET v == Head(zs)
